@@ -1,16 +1,21 @@
 package main
 
 import (
+	"fmt"
 	"strconv"
 
 	"golang.org/x/tools/go/ssa"
 )
 
 // strconv.Itoa of a symbolic int. The real code indexes digit tables with the value, which forks once per
-// feasible value. This model forks only on the sign and on the number of decimal digits and returns a string of
-// concrete length whose bytes are terms: digit j = '0' + (|x| / 10^(k-1-j)) % 10, computed at the narrowest of
-// 8/16/32/64 bits that holds 10^k (the path condition bounds |x| < 10^k, so the truncation is exact).
-// Concrete arguments are rendered natively.
+// feasible value. This model forks only on the sign and on the number of decimal digits k and returns a string of
+// concrete length whose digit bytes are '0'+d_j for *fresh* 8-bit variables d_0..d_(k-1) constrained by
+//   0 <= d_j <= 9,  d_0 >= 1 if k > 1,  |x| = sum d_j * 10^(k-1-j)
+// (the decimal numeral of |x| exists and is unique, so the constraint never prunes a value of x and determines the
+// digits). The linear form keeps "equal numerals => equal values" a congruence for the solver, which digit
+// extraction by division does not. The sum is built at the narrowest of 8/16/32/64 bits that holds 10^k (the path
+// condition bounds |x| < 10^k, so the truncation is exact). Rendering the same term again on a path returns the same
+// digits. Concrete arguments are rendered natively.
 func init() {
 	reg("strconv.Itoa", func(in *Interp, fn *ssa.Function, args []Value) Value {
 		x, ok := args[0].(*Term)
@@ -24,7 +29,20 @@ func init() {
 	})
 }
 
+type itoaMemo struct{ m map[*Term]Str }
+
 func (in *Interp) itoaSym(x *Term) Value {
+	if in.userState == nil {
+		in.userState = map[string]Value{}
+	}
+	memo, _ := in.userState["strconv.itoa"].(*itoaMemo)
+	if memo == nil {
+		memo = &itoaMemo{m: map[*Term]Str{}}
+		in.userState["strconv.itoa"] = memo
+	}
+	if s, ok := memo.m[x]; ok {
+		return s
+	}
 	w := x.w
 	minInt := uint64(1) << uint(w-1)
 	neg := in.decide(Bin("bvslt", x, C(w, 0)))
@@ -63,20 +81,27 @@ func (in *Interp) itoaSym(x *Term) Value {
 	if neg {
 		out = append(out, C(8, '-'))
 	}
+	base := in.nvars
+	in.nvars++
 	p := uint64(1)
 	for j := 1; j < k; j++ {
 		p *= 10
 	}
+	sum := C(nw, 0)
 	for j := 0; j < k; j++ {
-		q := un
-		if p != 1 {
-			q = Bin("bvudiv", un, C(nw, p))
+		name := fmt.Sprintf("dg%d_%d", base, j)
+		in.sol.Declare(name, 8)
+		d := V(name, 8)
+		in.assume(Bin("bvule", d, C(8, 9)))
+		if j == 0 && k > 1 {
+			in.assume(Bin("bvule", C(8, 1), d))
 		}
-		if j != 0 {
-			q = Bin("bvurem", q, C(nw, 10))
-		}
-		out = append(out, Bin("bvadd", Ext(q, 8, false), C(8, '0')))
+		sum = Bin("bvadd", sum, Bin("bvmul", Ext(d, nw, false), C(nw, p)))
+		out = append(out, Bin("bvadd", d, C(8, '0')))
 		p /= 10
 	}
-	return strFromTerms(out)
+	in.assume(Eq(un, sum))
+	s := strFromTerms(out)
+	memo.m[x] = s
+	return s
 }
